@@ -51,6 +51,13 @@ CUSTOM = {
     "laea": "+proj=laea +lat_0=10 +lon_0=20 +x_0=0 +y_0=0 +datum=WGS84 +units=m +no_defs +type=crs",
     "tmerc": "+proj=tmerc +lat_0=0 +lon_0=33 +k=0.9996 +x_0=500000 +y_0=0 +datum=WGS84 +units=m +no_defs +type=crs",
 }
+PROJ4 = {  # lossy spellings: no equality with the EPSG-built CRS is expected, the laws still apply
+    4326: "+proj=longlat +datum=WGS84 +no_defs",
+    32633: "+proj=utm +zone=33 +datum=WGS84 +units=m +no_defs",
+    32601: "+proj=utm +zone=1 +datum=WGS84 +units=m +no_defs",
+    3857: "+proj=merc +a=6378137 +b=6378137 +lat_ts=0 +lon_0=0 +x_0=0 +y_0=0 +k=1 +units=m +nadgrids=@null +wktext +no_defs",
+    4283: "+proj=longlat +ellps=GRS80 +no_defs",
+}
 ROUTES = ["int", "EPSG", "epsg", "Epsg", "wkt2019", "wkt2018", "json", "pyproj_epsg", "pyproj_wkt", "pyproj_json", "copy", "pickle"]
 CUSTOM_ROUTES = ["wkt2019", "wkt2018", "json", "pyproj_wkt", "pyproj_json", "copy", "pickle"]
 
@@ -138,6 +145,8 @@ NEEDS_CRS = {"bbox", "geom", "geobox", "gcp", "gbtiles", "gridspec"}
 def _draw_crs_spec(rng: random.Random) -> List[Any]:
     if rng.random() < 0.12:
         return ["crs", rng.choice(sorted(CUSTOM)), rng.choice(CUSTOM_ROUTES)]
+    if rng.random() < 0.08:
+        return ["crs", rng.choice(sorted(PROJ4)), "proj4"]
     code = rng.choice(CODES[:5] if rng.random() < 0.7 else CODES)
     return ["crs", code, rng.choice(ROUTES)]
 
@@ -220,6 +229,8 @@ def generate(rng: random.Random, tier: str) -> dict:
             s = rng.choice(crs_slots + val_slots)
             steps.append(["drop", s])
             (crs_slots if s in crs_slots else val_slots).remove(s)
+        elif r < 0.875 and crs_slots:
+            steps.append(["epsg", rng.choice(crs_slots)])  # read-only accessor; fills a lazily computed field
         elif r < 0.90:
             steps.append(["gc"])
         elif r < 0.94 and crs_slots:
@@ -248,6 +259,8 @@ def build_crs(code: Any, route: str) -> Any:
     from odc.geo.crs import CRS
 
     sp = REF["specs"][code]
+    if route == "proj4":
+        return CRS(PROJ4[int(code)])
     if route == "int":
         return CRS(int(code))
     if route == "EPSG":
@@ -611,6 +624,28 @@ class History:
             if (x["value"] == y["value"]) and ((y["value"] == v) != (x["value"] == v)):
                 self.report("O19.1", f"{kind}-eq-not-transitive", {"kind": kind, "a": x.get("spec"), "b": y.get("spec"), "c": e.get("spec")})
 
+    def recheck_crs_pool(self, e: Dict[str, Any]) -> None:
+        """After an accessor that may fill lazily computed state: the laws must still hold
+        between this value and the pool, and == must still be transitive over the whole pool."""
+        crs = [o for o in self.pool.values() if o["kind"] == "crs"]
+        v = e["value"]
+        for o in crs:
+            if o is e:
+                continue
+            w = o["value"]
+            eq1, eq2 = (v == w), (w == v)
+            strs = (str(v), str(w))
+            pw = {"kind": "crs", "a": e.get("spec"), "b": o.get("spec"), "after": "epsg-read"}
+            if eq1 != eq2:
+                self.report("O19.1", "crs-eq-not-symmetric", pw, strs)
+            if eq1 and e.get("hashable") and o.get("hashable") and hash(v) != hash(w):
+                self.report("O19.2", "crs-equal-but-hashes-differ", pw, strs)
+            if e.get("code") is not None and o.get("code") is not None and (e["code"] == o["code"]) != eq1:
+                self.report("O19.7", "crs-equivalent-specs-not-equal" if e["code"] == o["code"] else "crs-different-crs-compare-equal", pw, strs)
+        for x, y, z in itertools.permutations(crs, 3):
+            if x["value"] == y["value"] and y["value"] == z["value"] and not x["value"] == z["value"]:
+                self.report("O19.1", "crs-eq-not-transitive", {"kind": "crs", "a": x.get("spec"), "b": y.get("spec"), "c": z.get("spec"), "after": "epsg-read"})
+
     # ---- transformer oracle O19.5
     def check_transform(self, a: Dict[str, Any], b: Dict[str, Any], xy: bool, quiet: bool = False) -> None:
         import numpy as np
@@ -657,7 +692,7 @@ class History:
             if op == "crs":
                 code, route = step[1], step[2]
                 v = build_crs(code, route)
-                self.add("crs", v, {"code": code, "spec": [code, route], "via": "spec"})
+                self.add("crs", v, {"code": None if route == "proj4" else code, "spec": [code, route], "via": "spec"})
             elif op == "comp":
                 kind, var, ref = step[1], step[2], step[3]
                 crs = None
@@ -707,6 +742,11 @@ class History:
                     if other is not None and other["kind"] == "crs":
                         self.check_transform(e, other, bool(step[3]), quiet=True)
                 self.ch.count("churn", len(step[1]))
+            elif op == "epsg":
+                e = self.pool.get(step[1])
+                if e is not None and e["kind"] == "crs":
+                    _ = e["value"].epsg
+                    self.recheck_crs_pool(e)
             elif op == "flood":
                 self.flood(int(step[1]), self.pool.get(step[2]), bool(step[3]))
             elif op == "race":
@@ -773,7 +813,7 @@ class History:
             self._lock_contended_seen = lk.contended
         for i, (code, route) in enumerate(specs):
             v = results[f"R{i}"]
-            self.add("crs", v, {"code": code, "spec": [code, route], "via": "race"})
+            self.add("crs", v, {"code": None if route == "proj4" else code, "spec": [code, route], "via": "race"})
         # probe: two racing threads ended up with different pyproj objects for one spec key
         vals = [results[f"R{i}"] for i in range(len(specs))]
         for (i, a), (j, b) in itertools.combinations(enumerate(vals), 2):
@@ -968,10 +1008,10 @@ def _drop_step(steps: List[List[Any]], i: int) -> Optional[List[List[Any]]]:
         if j == i:
             continue
         s = copy.deepcopy(s)
-        if s[0] in ("copy", "pickle", "drop"):
+        if s[0] in ("copy", "pickle", "drop", "epsg"):
             s[1] = ren(s[1])
             if s[1] == -1:
-                if s[0] == "drop":
+                if s[0] in ("drop", "epsg"):
                     continue
                 return None
         elif s[0] == "transform":
